@@ -21,6 +21,10 @@ def main():
     for f in os.listdir(src):
         p = os.path.join(src, f)
         if os.path.isdir(p):
+            # small helper directories of the demonstration (e.g. cfg/feat_config.hpp); build output is not kept
+            if f.startswith("_") or f in ("build", "obj") or sum(os.path.getsize(os.path.join(r, x)) for r, _, fs in os.walk(p) for x in fs) > 400000:
+                continue
+            shutil.copytree(p, os.path.join(dst, f), dirs_exist_ok=True)
             continue
         if os.path.getsize(p) > 400000:
             continue
